@@ -5,7 +5,8 @@ hands to its kernels (captured by tapping the kernel entry points of speckit.ana
 (b) the model's single-bin segmentation (driver `singlebin N L olap`) vs the D reported by the real `compute_single_bin`,
 and the model's round-to-even (driver `reven`) vs the segment length chosen for a `(freq, fres)` request.
 oracle (real code only): every bin of full analyses, single-bin requests, band restrictions and back-to-back analyzers
-against a direct extended-precision evaluation of the reference estimator from the result's OWN f, L, D (`_an`)."""
+against a direct extended-precision evaluation of the reference estimator from the result's OWN f, L, D (`_an`); plus sequences of
+analyses of one record on one plan with DIFFERENT window callables (each result against the window rebuilt from its own callable)."""
 from __future__ import annotations
 
 import math
@@ -114,11 +115,16 @@ ASSUMPTIONS = [
 RULE = ("oracle cases = (record kind x auto/cross x layout, N in 300..3000 plus an edge stream N in 8..33 / zero / constant records, options from "
         "_an.options over 4 schedulers x orders -1..2 x windows {kaiser(psll), default np.kaiser, scipy kaiser, hann, L-hashed callable} x backends "
         "{numba, numpy}) each followed by single-bin requests (by L and by fres), bands with edges ON plan frequencies / between bins / empty, "
-        "and a second analyzer with another order/window on the same plan; correspondence cases = (L, psll) Kaiser windows and (N, L, olap) "
+        "and a second analyzer with another order/window on the same plan; window sequences = per group one record and ONE set of plan parameters "
+        "(N in 160..360, all segment lengths shared) analysed back to back with 3..6 different window callables (NumPy/SciPy functions, closures "
+        "sharing __name__, lambdas, functools.partial and callable objects without __name__, bound methods, all rebuilt from a spec for the "
+        "reference) interleaved with hann / Kaiser at far and nearly equal psll, orders -1..2, both backends, compute / compute_spectrum / lpsd, "
+        "two single-bin requests (L = N and a shared L) per analysis; every catalogue entry opens one group and is a later member of others; "
+        "correspondence cases = (L, psll) Kaiser windows and (N, L, olap) "
         "single-bin segmentations incl. exact rounding ties, and (generated region LpsdCore) small real/user plans (<= 14 bins, L <= 260, index blocks in "
         "and out of order) through Gen._lpsd_core vs the real _lpsd_core rows, one single-bin request each, <= 5 bands each through Gen.plan_band vs "
         "the real plan(band=), one accepted/corrupted scheduler output each through Gen.plan_validate vs the real plan(). distinct by the tuple shown in the key; non-trivial = plan with >= 2 bins and some K >= 2 "
-        "(full), K >= 2 or L >= 3 (single-bin), 0 < #in-band < #bins or an empty band (band), L >= 3 (kaiser), navg >= 2 (segmentation)")
+        "(full), K >= 2 or L >= 3 (single-bin), 0 < #in-band < #bins or an empty band (band), L >= 3 (kaiser), navg >= 2 (segmentation), a callable-window analysis with >= 1 segment length used before in this process by ANOTHER callable (winseq)")
 
 U = 2.0 ** -53
 PLAN_FIELDS = ("f", "r", "b", "L", "K", "navg", "O")
@@ -129,6 +135,69 @@ WINKINDS = ["kaiser", "hashwin", "hann", "default", "kaiser", "hashwin", "spkais
 def hashwin(L: int) -> np.ndarray:
     """a window whose values depend on L: a window of another length, or of another bin, is detectably different"""
     return 0.5 + ((np.arange(L) * 7 + 3 * L) % 11) / 11
+
+
+def salted(L: int, salt: int = 0) -> np.ndarray:
+    """a family of L-hashed windows: members with different salts differ in level (so in both window sums) and in pattern"""
+    L = int(L)
+    return (0.5 + (int(salt) % 16) / 16.0) + ((np.arange(L) * 7 + 3 * L + int(salt)) % 11) / 11
+
+
+class _CallWin:
+    """a window handed over as an object with __call__ (no __name__; every instance has the same type) or as a bound method of such an object"""
+
+    def __init__(self, salt: int):
+        self.salt = int(salt)
+
+    def __call__(self, L):
+        return salted(L, self.salt)
+
+    def window(self, L):
+        return salted(L, self.salt + 5)
+
+
+def make_window(spec: str):
+    """a FRESH callable for a window spec (the library gets one object, the reference builds its window from another one): NumPy / SciPy window
+    functions, closures that share __name__ (and code object), lambdas, functools.partial objects and callable objects without __name__, bound methods"""
+    import functools
+    from scipy.signal import windows as spw
+    t = spec.split(":")
+    k = t[0]
+    if k == "np":
+        return getattr(np, t[1])
+    if k == "sp":
+        return getattr(spw, t[1])
+    if k == "boxcar":
+        return lambda L: np.ones(int(L))
+    if k == "hash":
+        salt = int(t[1])
+
+        def hashwin(L):                                  # noqa: F811  (same __name__ as the module-level window, same code object for every salt)
+            return salted(L, salt)
+        return hashwin
+    if k == "lambda":
+        p = float(t[1])
+        return lambda L: np.hanning(int(L) + 2)[1:-1] ** p
+    if k == "partial":
+        if t[1] == "tukey":
+            return functools.partial(spw.tukey, alpha=float(t[2]))
+        if t[1] == "kaiser":                             # NOT the Kaiser entry of the analyzer: an opaque callable L -> symmetric kaiser(L, beta)
+            return functools.partial(spw.kaiser, beta=float(t[2]))
+        if t[1] == "salted":
+            return functools.partial(salted, salt=int(t[2]))
+    if k == "obj":
+        return _CallWin(int(t[1]))
+    if k == "bound":
+        return _CallWin(int(t[1])).window
+    raise ValueError(spec)
+
+
+def winfam(wk: str) -> str:
+    """window kind without its random parameters (histogram / signature key)"""
+    if not wk.startswith("cb:"):
+        return wk
+    t = wk.split(":")
+    return ":".join(t[:3] if t[1] in ("np", "sp", "partial") else t[:2])
 
 
 def custom_sched(seed: int):
@@ -181,6 +250,8 @@ def real_kwargs(case: Dict[str, Any]) -> Dict[str, Any]:
         o["win"] = "hann"
     elif wk == "hashwin":
         o["win"] = hashwin
+    elif wk.startswith("cb:"):               # a window callable described by a spec string (make_window)
+        o["win"] = make_window(wk[3:])
     else:
         raise ValueError(wk)
     return o
@@ -192,6 +263,8 @@ def ref_window(case: Dict[str, Any]) -> Tuple[Any, Optional[float]]:
         return "kaiser", float(case["opts"]["psll"])
     if wk == "hann":
         return "hann", None
+    if wk.startswith("cb:"):                 # rebuilt from the spec: another object than the one the library was given
+        return make_window(wk[3:]), None
     return hashwin, None
 
 
@@ -260,7 +333,7 @@ def brief(case) -> str:
 
 def sig(case, sub: str, **kw) -> Dict[str, Any]:
     o = case["opts"]
-    s = {"subclaim": sub, "scheduler": str(o["scheduler"]).split(":")[0], "order": o["order"], "win": o["winkind"], "backend": o["backend"],
+    s = {"subclaim": sub, "scheduler": str(o["scheduler"]).split(":")[0], "order": o["order"], "win": winfam(o["winkind"]), "backend": o["backend"],
          "cross": case["data"].ndim == 2}
     s.update(kw)
     return s
@@ -359,7 +432,7 @@ def run_full(P: C.Part, case, an=None, via: str = "class", tag: str = "full", re
     rep = nf - len(set(Ls.tolist()))
     P.hit(f"{tag}:{str(o['scheduler']).split(':')[0]}")
     P.hit(f"{tag}:order={o['order']}")
-    P.hit(f"{tag}:win={o['winkind']}")
+    P.hit(f"{tag}:win={winfam(o['winkind'])}")
     P.hit(f"{tag}:backend={o['backend']}")
     P.hit(f"{tag}:{'cross' if case['data'].ndim == 2 else 'auto'}")
     P.hit(f"{tag}:bins", nf if bins is None else len(bins))
@@ -604,6 +677,138 @@ def one_round(P: C.Part, rng: np.random.Generator, i: int, edge: bool, n_single:
     return case
 
 
+# ---------------------------------------------------------------- window sequences: a spectrum depends on ITS OWN window only
+# One record, ONE set of plan parameters (so every segment length, L = N included, is met again by every analysis of the group), analysed
+# back to back with a sequence of DIFFERENT window callables interleaved with named windows and Kaiser windows at far and at nearly equal
+# psll, orders -1..2, both backends, compute() / compute_spectrum / lpsd, plus single-bin requests at two shared lengths. Every result is
+# checked against the reference built from its own f, L, D and the window rebuilt from ITS OWN spec (run_full / run_single: existing
+# predicates and tolerances). Anything that survives a call — a window / window sums / basis remembered under a key that does not identify
+# the callable (a label, __name__, the type, id() of a freed object, L alone), in any analyzer, for any entry point — shows in the later
+# analyses of the group.
+_SEEN_L: Dict[int, set] = {}      # measured non-triviality: segment length -> callable specs that have used it in this process
+
+
+def callable_catalogue(rng: np.random.Generator) -> List[str]:
+    """window callables with fresh parameters; members of one family (same __name__ / same type / no __name__) are neighbours in the list"""
+    s = [int(v) for v in rng.permutation(np.arange(1, 11))]           # distinct salts (distinct modulo 11 and modulo 16)
+    p1 = float(np.round(rng.uniform(0.3, 0.9), 3))
+    p2 = float(np.round(rng.uniform(1.2, 2.5), 3))
+    a = float(np.round(rng.uniform(0.1, 0.9), 3))
+    beta = float(np.round(rng.uniform(2.0, 14.0), 3))
+    return ["np:hamming", "np:blackman", "np:bartlett", "sp:nuttall", "boxcar", f"lambda:{p1!r}", f"lambda:{p2!r}",
+            f"hash:{s[0]}", f"hash:{s[1]}", f"partial:salted:{s[2]}", f"partial:tukey:{a!r}", f"partial:kaiser:{beta!r}",
+            f"obj:{s[3]}", f"obj:{s[4]}", f"bound:{s[5]}", f"bound:{s[6]}", "np:hanning", "sp:blackmanharris"]
+
+
+def gen_winseq(rng: np.random.Generator, g: int, start: int, k: int) -> Dict[str, Any]:
+    """group g: the callables cat[start], cat[start+1], … (k of them, cyclically) — the first one opens the group and comes back at its end"""
+    N = int(rng.integers(160, 361))
+    kind = str(rng.choice(["noise", "offset", "drift", "tone"]))
+    x1 = A.record(rng, N, kind)
+    if g % 2:
+        data = np.ascontiguousarray(np.stack([x1, 0.5 * np.roll(x1, 3) + A.record(rng, N, kind)]))
+        layout = str(rng.choice(["2xN", "Nx2"]))
+    else:
+        data, layout = x1, "1d"
+    fs = float(rng.choice([1.0, 2.0, 1000.0, float(rng.uniform(0.1, 1e4))]))
+    sched = f"custom:{int(rng.integers(0, 2 ** 31))}" if g % 4 == 3 else str(rng.choice(A.SCHEDS))
+    opts = {"order": 0, "olap": float(rng.choice([0.0, 0.5, 0.75, float(np.round(rng.uniform(0, 0.9), 3))])), "Jdes": int(rng.integers(5, 11)),
+            "Kdes": int(rng.choice([1, 2, 5])), "bmin": 1.0, "Lmin": 1, "scheduler": sched, "winkind": "hann", "backend": "numba"}
+    cat = callable_catalogue(rng)
+    cbs = ["cb:" + cat[(start + q) % len(cat)] for q in range(k)]
+    p = float(rng.choice([60.0, 100.0, 200.0, float(rng.uniform(40, 200))]))
+    far = float(p * 0.5 + 15.0) if p > 80 else float(p + 77.0)
+    named = [("kaiser", p), ("hann", None), ("default", p * (1.0 + 1e-7)), ("spkaiser", far), ("kaiser", far), ("default", p)]
+    seq: List[Tuple[str, Optional[float]]] = []
+    for q, c in enumerate(cbs):
+        seq.append((c, None))
+        if q % 2 == 0 or q == len(cbs) - 1:
+            seq.append(named[(g + q // 2) % len(named)])
+            if q == 0:
+                seq.append(named[(g + 2) % len(named)])
+    seq += [(cbs[0], None)] + ([(cbs[1], None)] if k >= 4 else [])           # the opening callables once more, after all the others
+    L0 = int(rng.integers(4, max(5, N // 2)))
+    fq = [float(rng.uniform(0.01, 0.49)) * fs for _ in range(2)]
+    steps = []
+    for sidx, (wk, psll) in enumerate(seq):
+        st = {"winkind": wk, "psll": psll, "order": int([-1, 0, 1, 2][(g + sidx) % 4]),
+              "backend": "numpy" if (g + sidx // 2) % 2 else "numba",
+              "via": ["class", "compute_spectrum", "class", "lpsd", "class"][(g + sidx) % 5],
+              "single": [{"freq": fq[0], "L": N, "via": "method" if sidx % 2 else "function"},
+                         {"freq": fq[1], "L": L0, "via": "function" if sidx % 2 else "method"}]}
+        steps.append(st)
+    return {"case": {"data": data, "layout": layout, "fs": fs, "opts": opts, "kind": kind}, "steps": steps}
+
+
+def step_case(base, st) -> Dict[str, Any]:
+    o = dict(base["opts"], winkind=st["winkind"], order=int(st["order"]), backend=st["backend"])
+    o.pop("psll", None)
+    if st.get("psll") is not None:
+        o["psll"] = float(st["psll"])
+    return dict(base, opts=o)
+
+
+def run_winseq(P: C.Part, group: Dict[str, Any], history: List[Dict[str, Any]], dumped: Optional[Dict[str, Any]] = None, upto: Optional[int] = None):
+    """run one group; `history` = the dumped groups that ran before it in this process (part of every replay record: process-level state)"""
+    base = group["case"]
+    if dumped is None:
+        dumped = {"case": dump_case(base), "steps": group["steps"]}
+    rp0 = {"kind": "winseq", "case": dumped["case"], "steps": dumped["steps"], "history": history}
+    for sidx, st in enumerate(group["steps"]):
+        if upto is not None and sidx > upto:
+            break
+        case = step_case(base, st)
+        rp = dict(rp0, step=sidx)
+        n0 = len(P.violations)
+        _, res = run_full(P, case, via=st.get("via", "class"), tag="winseq", replay=rp)
+        wk = st["winkind"]
+        if res is not None:
+            Ls = sorted(set(int(v) for v in np.asarray(res.L)))
+            if wk.startswith("cb:"):
+                shared = [L for L in Ls if _SEEN_L.get(L, set()) - {wk}]
+                P.hit("winseq:callable-analyses")
+                if shared:
+                    P.hit("winseq:callable-analyses-after-another-callable-at-a-shared-L")
+                    P.hit("winseq:bins-at-a-length-used-before-by-another-callable", int(sum(int(L) in shared for L in np.asarray(res.L))))
+                    P.nontrivial.add(("winseq", winfam(wk), st["order"], st["backend"], st.get("via"), case["data"].ndim, len(shared), sidx))
+                for L in Ls:
+                    _SEEN_L.setdefault(L, set()).add(wk)
+            else:
+                P.hit("winseq:named-window-analyses")
+        for q in st.get("single", []):
+            run_single(P, case, None, q, tag="winseq-single", replay=rp)
+            if wk.startswith("cb:"):
+                _SEEN_L.setdefault(int(q["L"]), set()).add(wk)
+        if len(P.violations) > n0 and len(P.violations) >= 5:
+            break
+    return dumped
+
+
+def winseq_stream(ctx, P: C.Part, intensive: bool, reserve: float):
+    """quick: one pass over the catalogue (every callable opens one group and is a later member of others); thorough / intensive: more passes"""
+    rng = np.random.default_rng([int(getattr(ctx, "seed", 0)) & 0xFFFFFFFF, 0xC05, 8])     # own stream: the rounds below keep theirs
+    ncat = len(callable_catalogue(np.random.default_rng(0)))
+    k = ctx.scale(3, 5)
+    passes = ctx.scale(1, 3) * (4 if intensive else 1)
+    off = int(rng.integers(0, ncat))
+    t_begin = ctx.time_left()
+    cap = (12.0 if not ctx.thorough else 150.0) * (4 if intensive else 1)
+    history: List[Dict[str, Any]] = []
+    g = 0
+    for ps in range(passes):
+        for q in range(ncat):
+            if ctx.time_left() < reserve or t_begin - ctx.time_left() > cap:
+                P.notes.append(f"window sequences stopped after {g} groups (time)")
+                return
+            grp = gen_winseq(rng, g, (off + q * [1, 5, 7, 11, 13, 17][ps % 6]) % ncat, k + (ps % 2))
+            history = history + [run_winseq(P, grp, history)]
+            if len(history) > 6:                          # a replay record carries the last 6 groups before its own
+                history = history[-6:]
+            g += 1
+            if len(P.violations) >= 5:
+                return
+
+
 def oracle(ctx, intensive: bool = False, hints: List[Dict[str, Any]] = ()) -> C.Part:
     P = C.Part()
     rng = ctx.rng
@@ -634,6 +839,10 @@ def oracle(ctx, intensive: bool = False, hints: List[Dict[str, Any]] = ()) -> C.
                 run_single(P, case, None, {"freq": 0.2 * case["fs"], "fres": float(h["fres"]), "via": "method"}, tag="hint-single")
         except Exception as ex:  # a hint that cannot be turned into a case is not an error of the check
             P.notes.append(f"hint not replayable: {ex!r}"[:200])
+    # sequences of different window callables on one record and one plan (before the random rounds: the budget cannot run out on them)
+    winseq_stream(ctx, P, intensive, reserve)
+    if len(P.violations) >= 5:
+        return P
     for i in range(n):
         if ctx.time_left() < reserve:
             P.notes.append(f"time budget reached after {i} rounds")
@@ -1272,4 +1481,10 @@ def replay(ctx, data) -> C.Part:
                 run_band(P, case, full, tuple(rp["band"]))
         elif kind == "pair":
             run_pair(P, rng, case, load_case(rp["caseB"]), rp.get("reqs"))
+        elif kind == "winseq":                    # the groups that ran before it in the original process, then the group up to the failing step
+            hist = []
+            for h in rp.get("history", []):
+                run_winseq(C.Part(), {"case": load_case(h["case"]), "steps": h["steps"]}, hist, dumped=h)
+                hist = hist + [h]
+            run_winseq(P, {"case": case, "steps": rp["steps"]}, hist, dumped={"case": rp["case"], "steps": rp["steps"]}, upto=rp.get("step"))
     return P
